@@ -51,6 +51,8 @@ def one(args):
 def main():
     a = sys.argv[1:]
     benign = "--benign" in a
+    reverts = "--reverts" in a     # selftest/reverts/<commit>/patch.diff = `git revert -n <fix commit>`: the checks of the properties
+    #                                 known_findings.json names for that commit must fire again
     jobs = int(a[a.index("--jobs") + 1]) if "--jobs" in a else 4
     ids = a[a.index("--checks") + 1].split(",") if "--checks" in a else IDS
     skip = set()
@@ -58,10 +60,15 @@ def main():
         if flag in a:
             skip.add(a.index(flag)); skip.add(a.index(flag) + 1)
     names = [x for i, x in enumerate(a) if i not in skip and not x.startswith("--")]
-    base = os.path.join(ROOT, "selftest", "benign") if benign else os.path.join(ROOT, "seeded")
+    base = os.path.join(ROOT, "selftest", "benign") if benign else os.path.join(ROOT, "selftest", "reverts") if reverts else os.path.join(ROOT, "seeded")
+    expect = {}
+    if reverts:
+        for line in json.load(open(os.path.join(ROOT, "known_findings.json")))["fixed"]:
+            w = line.split()
+            expect.setdefault(w[2], set()).add(w[1].split("=")[1])
     if not names:
         names = sorted(d for d in os.listdir(base) if os.path.exists(os.path.join(base, d, "patch.diff")))
-    mp = os.path.join(ROOT, "selftest", "benign_matrix.json" if benign else "matrix.json")
+    mp = os.path.join(ROOT, "selftest", "benign_matrix.json" if benign else "reverts_matrix.json" if reverts else "matrix.json")
     out = json.load(open(mp)) if os.path.exists(mp) else {}
     os.makedirs(MX, exist_ok=True)
     inner = max(1, 16 // jobs)
@@ -80,6 +87,10 @@ def main():
                 q = not fired and not err
                 bad += 0 if q else 1
                 print(name, "ALL QUIET" if q else "ALARMS %s" % {p: res[p]["lines"][:2] for p in fired + err}, flush=True)
+            elif reverts:
+                missing = sorted(expect.get(name, set()) - set(fired))
+                bad += 1 if missing or err else 0
+                print(name, "fires", fired, ("NOT RE-DETECTED BY " + str(missing)) if missing else "(all named checks fire again)", ("EXIT-2 " + str(err)) if err else "", flush=True)
             else:
                 own = name.split("-")[0]
                 print(name, "caught by", fired, "" if own in fired or own not in ids else "(own check quiet)", ("EXIT-2 " + str(err)) if err else "", flush=True)
